@@ -5,6 +5,9 @@ Public methods: regular, static, class and async methods; NOT `_private`, dunder
 """
 from __future__ import annotations
 
+# header comments end in non-ASCII text: from there on byte offsets and character offsets differ (Latin-1 supplement, Thai, CJK, astral plane)
+NON_ASCII = " \u2014 g\u00e9n\u00e9r\u00e9 \u0e2a\u0e23\u0e49\u0e32\u0e07 \u751f\u6210 \U0001f600"
+
 KEYWORDS = ["Manager", "Handler", "Processor", "Utility", "Helper"]
 NEUTRAL = ["Account", "Ledger", "Widget", "Parcel", "Invoice", "Ticket", "Channel", "Sensor", "Route", "Garden"]
 
@@ -237,9 +240,9 @@ def gen_file(rng, lang, idx, M, L, nclasses, with_noise=True):
     out = Lines()
     facts = []
     if lang == "py":
-        out.code('"""Generated classes."""')
+        out.code('"""Generated classes%s."""' % NON_ASCII)
     else:
-        out.comment("// Generated classes")
+        out.comment("// Generated classes" + NON_ASCII)
     for c in range(nclasses):
         out.blank()
         out.blank()
